@@ -320,6 +320,15 @@ Section Sim.
 
   (* when the faulty run loads, the fault-free run loads a covering request, and everything the
      faulty run would merge from the clean answer is contained in the fault-free data after the step *)
+  (* the shape of a load, by fetch kind *)
+  Definition load_shape (f : fetch) (dataF : json) (itemsF : list rpath) (rqF : request) (batchF : option (list (list rpath))) : Prop :=
+    match f_kind f with
+    | FSingle => itemsF = [[]] /\ batchF = None /\ rqF = mk_request f []
+    | FEntity => exists l b m, itemsF = [l] /\ batchF = None /\ rqF = mk_request f [b] /\ get_loc l dataF = Some (JObj m)
+    | FBatch => exists bsF, snd (batch_prepare (f_rep f) itemsF dataF []) = bsF /\ bsF <> [] /\ rqF = mk_request f (map fst bsF) /\
+                            batchF = Some (map snd bsF) /\ forall b l, in_buckets bsF b l -> exists m, get_loc l dataF = Some (JObj m)
+    end.
+
   Definition load_ok (f : fetch) (dB D : json) (itemsF : list rpath) (rqF : request) (batchF : option (list (list rpath))) : Prop :=
     (exists d0 rq0 batch0, prepare f dB (select_items dB (f_path f)) = PLoad d0 rq0 batch0 /\ request_covered rqF rq0 = true) /\
     itemsF <> [] /\ (batchF = None -> exists l, itemsF = [l]) /\
